@@ -144,7 +144,9 @@ class ExactAlgorithmCplex(ExactAlgorithmBase, PairwiseBasedAlgorithm):
                         new_dataset = Dataset(new_dataset.rankings + [Ranking([])] * nb_rankings_lost)
                     rankings: List[Ranking] = self._compute_consensus_rankings_with_optim(new_dataset, scoring_scheme,
                                                                                           False, True)
-                    for bucket in rankings[0]:
+                    # the sub-problem may have re-encoded its elements: use the elements of the input dataset
+                    for bucket in ExactAlgorithmCplex._ranking_with_elements_of(
+                            rankings[0], {id_elements[id_elem] for id_elem in scc_i_set}):
                         ranking.append(bucket)
             return [Ranking(ranking)]
 
